@@ -569,8 +569,9 @@ static bool mmap_page_header_window(const carquet_reader_t* file_reader,
     if (offset < 0 || (uint64_t)offset >= (uint64_t)file_reader->file_size) {
         return false;
     }
-    size_t avail = file_reader->file_size - (size_t)offset;
-    *window = avail < 256 ? avail : 256;
+    /* The parser stops at the end of the header struct; a header with long
+     * binary statistics can exceed any small fixed window */
+    *window = file_reader->file_size - (size_t)offset;
     return true;
 }
 
@@ -711,6 +712,54 @@ static size_t file_read_at(FILE* file, int64_t offset, void* buf, size_t size) {
 }
 
 /* ============================================================================
+ * Helper: parse a page header read through the shared stream
+ * ============================================================================
+ * Page headers are usually a few dozen bytes, but statistics with long binary
+ * min/max values make them arbitrarily large.  `first` holds the bytes already
+ * read at `offset`; when the parse fails although the window was full, it is
+ * repeated on larger windows.
+ */
+static carquet_status_t parse_page_header_fread(
+    FILE* file, int64_t offset,
+    const uint8_t* first, size_t first_size, size_t first_capacity,
+    parquet_page_header_t* header, size_t* header_size,
+    carquet_error_t* error) {
+
+    carquet_status_t status = parquet_parse_page_header(
+        first, first_size, header, header_size, error);
+    if (status == CARQUET_OK || first_size < first_capacity) {
+        return status;
+    }
+
+    static const size_t windows[] = { 8192, 1024 * 1024 };
+    for (size_t i = 0; i < sizeof(windows) / sizeof(windows[0]); i++) {
+        uint8_t* buf = malloc(windows[i]);
+        if (!buf) {
+            CARQUET_SET_ERROR(error, CARQUET_ERROR_OUT_OF_MEMORY, "Failed to allocate page header buffer");
+            return CARQUET_ERROR_OUT_OF_MEMORY;
+        }
+        size_t got = file_read_at(file, offset, buf, windows[i]);
+        if (got == (size_t)-1) {
+            free(buf);
+            CARQUET_SET_ERROR(error, CARQUET_ERROR_FILE_SEEK, "Failed to seek to page header");
+            return CARQUET_ERROR_FILE_SEEK;
+        }
+        carquet_error_t retry_error = CARQUET_ERROR_INIT;
+        status = parquet_parse_page_header(buf, got, header, header_size, &retry_error);
+        free(buf);
+        if (status == CARQUET_OK) {
+            if (error) *error = retry_error;
+            return CARQUET_OK;
+        }
+        if (error) *error = retry_error;
+        if (got < windows[i]) {
+            break;  /* that was the rest of the file */
+        }
+    }
+    return status;
+}
+
+/* ============================================================================
  * Helper: Load dictionary page (fread path)
  * ============================================================================
  */
@@ -738,8 +787,9 @@ static carquet_status_t load_dictionary_page_fread(
 
     parquet_page_header_t page_header;
     size_t header_size;
-    carquet_status_t status = parquet_parse_page_header(
-        header_buf, header_read, &page_header, &header_size, error);
+    carquet_status_t status = parse_page_header_fread(
+        file, dict_offset, header_buf, header_read, sizeof(header_buf),
+        &page_header, &header_size, error);
     if (status != CARQUET_OK) {
         return status;
     }
@@ -1162,8 +1212,9 @@ static carquet_status_t load_next_page_fread(
 
     parquet_page_header_t page_header;
     size_t header_size;
-    carquet_status_t status = parquet_parse_page_header(
-        header_buf, header_read, &page_header, &header_size, error);
+    carquet_status_t status = parse_page_header_fread(
+        file, data_offset + reader->current_page, header_buf, header_read,
+        sizeof(header_buf), &page_header, &header_size, error);
     if (status != CARQUET_OK) {
         return status;
     }
